@@ -65,6 +65,13 @@ func runConcurrent(seed int64, rnd *rand.Rand, dur time.Duration, w *tr.W, id in
 	var wg sync.WaitGroup
 	var beats [16]int64
 	stopped := func() bool { return atomic.LoadInt32(&stop) != 0 }
+	heart := func() []int64 {
+		res := make([]int64, ns+4)
+		for i := range res {
+			res[i] = atomic.LoadInt64(&beats[i])
+		}
+		return res
+	}
 	spawn := func(i int, f func()) {
 		wg.Add(1)
 		go func() {
@@ -153,13 +160,13 @@ func runConcurrent(seed int64, rnd *rand.Rand, dur time.Duration, w *tr.W, id in
 	select {
 	case <-done:
 	case <-time.After(15 * time.Second):
-		fmt.Fprintln(os.Stderr, "WATCHDOG: goroutines did not come back within 15s after the stop signal; heartbeats:", beats[:ns+4])
+		fmt.Fprintln(os.Stderr, "WATCHDOG: goroutines did not come back within 15s after the stop signal; heartbeats:", heart())
 		pprof.Lookup("goroutine").WriteTo(os.Stderr, 2)
 		os.Exit(3)
 	}
 	for i := 1; i <= ns+3; i++ {
 		if atomic.LoadInt64(&beats[i]) == 0 {
-			fmt.Fprintln(os.Stderr, "WATCHDOG: goroutine", i, "made no progress; heartbeats:", beats[:ns+4])
+			fmt.Fprintln(os.Stderr, "WATCHDOG: goroutine", i, "made no progress; heartbeats:", heart())
 			pprof.Lookup("goroutine").WriteTo(os.Stderr, 2)
 			os.Exit(3)
 		}
@@ -176,7 +183,7 @@ func runConcurrent(seed int64, rnd *rand.Rand, dur time.Duration, w *tr.W, id in
 	}
 	r.syncing = false
 	r.prevAny = map[int]bool{}
-	m := tr.M{"ev": "Quiesce", "incl": incl, "blocks": len(blocks), "beats": beats[:ns+4]}
+	m := tr.M{"ev": "Quiesce", "incl": incl, "blocks": len(blocks), "beats": heart()}
 	m["st"] = r.observe()
 	r.lines = append(r.lines, m)
 	// B did not follow the chain in this mode: the closing blocks are proposed by A itself
